@@ -692,8 +692,10 @@ class _SState(ExchangeState):
             if k == _K_NOTHING:
                 return
             out.emit(_S_OUT_BATCH)
+            _H["emitted"] = _H.get("emitted", ()) + (i,)
         finally:
             _EV.append(("proc_end", i))
+            _H["out_len_at_end_%d" % i] = len(_H["tr"].writer.getvalue())
 
 
 class _SProto(Protocol):
@@ -778,6 +780,85 @@ def _replay_serve_stream(a: dict) -> str | None:
         seg.unlink()
 
 
+def _replay_zero_copy_view() -> str | None:
+    """Un-stubbed _serve_stream over a real segment: a state that emits a zero-copy view of its (shm-carried)
+    input with another column layout; the answer through shm must equal the answer of inline transfer."""
+    from vgi_rpc.utils import ValidatedReader
+
+    rows = max(shm_mod.SHM_MIN_BATCH_BYTES // 8 + 1024, 4096)
+    s_in = pa.schema([pa.field("a", pa.int64()), pa.field("b", pa.float64())])
+    s_out = pa.schema([pa.field("b", pa.float64()), pa.field("a", pa.int64())])
+
+    @dataclass
+    class Swap(ExchangeState):
+        def exchange(self, input, out, ctx) -> None:  # type: ignore[no-untyped-def]
+            b = input.batch
+            out.emit(pa.RecordBatch.from_arrays([b.column("b"), b.column("a")], schema=s_out))
+
+    class P(Protocol):
+        def swap(self) -> Stream[ExchangeState]: ...
+
+    class Impl:
+        def swap(self) -> Stream[Swap]:
+            return Stream(output_schema=s_out, state=Swap(), input_schema=s_in)
+
+    server = srv.RpcServer(P, Impl(), server_id="srv")
+    data = pa.RecordBatch.from_pydict({"a": list(range(rows)), "b": [float(-i) for i in range(rows)]}, schema=s_in)
+    want = pa.RecordBatch.from_arrays([data.column("b"), data.column("a")], schema=s_out)
+
+    def run(through_shm: bool) -> tuple:
+        seg = shm_mod.ShmSegment.create(shm_mod.HEADER_SIZE + 16 * 1024 * 1024) if through_shm else None
+        try:
+            b = BytesIO()
+            with ipc.new_stream(b, s_in) as w:
+                if seg is not None:
+                    res = seg.allocate_and_write(data)
+                    assert res is not None
+                    ptr, cm = shm_mod.make_shm_pointer_batch(s_in, res[0], res[1])
+                    w.write_batch(ptr, custom_metadata=cm)
+                else:
+                    w.write_batch(data)
+            tr = _STransport(b.getvalue())
+            server._serve_stream(tr, server._methods["swap"], {}, shm=seg)
+            rd = ValidatedReader(ipc.open_stream(BytesIO(tr.writer.getvalue())), IpcValidation.NONE)
+            try:
+                ab = wire._read_batch_with_log_check(rd, None, shm=seg)
+            except Exception as e:  # noqa: BLE001
+                return ("error", f"{type(e).__name__}: {e}"[:160], through_shm)
+            ok = ab.batch.equals(want)
+            first_bad = None
+            if not ok and ab.batch.num_rows == want.num_rows:
+                for name in ("b", "a"):
+                    got_col, want_col = ab.batch.column(name).to_pylist(), want.column(name).to_pylist()
+                    for j in range(rows):
+                        if got_col[j] != want_col[j]:
+                            first_bad = (name, j, got_col[j], want_col[j])
+                            break
+                    if first_bad:
+                        break
+            routed = ab.custom_metadata is not None and ab.custom_metadata.get(md.SHM_SOURCE_KEY) is not None
+            return ("ok" if ok else "differs", first_bad, routed)
+        finally:
+            if seg is not None:
+                seg.close()
+                seg.unlink()
+
+    inline = run(False)
+    shared = run(True)
+    if inline[0] != "ok":
+        return None  # the scenario itself does not work on this tree: not this defect
+    if shared[0] != "ok":
+        return (
+            f"exchange answer differs between transports: inline transfer returns the swapped columns intact, through shared memory the answer "
+            f"is {shared[0]} (first difference column/row/got/want: {shared[1]}); the input region was handed back while the output still referenced it"
+        )
+    return None
+
+
+def _replay_serve_stream_full(a: dict) -> str | None:
+    return _replay_serve_stream(a) or _replay_zero_copy_view()
+
+
 _T_MAX = pick(2, 3)
 _KINDS_A = (_K_EMIT, _K_RAISE, _K_NOTHING, _K_UNDECODABLE)
 
@@ -820,11 +901,15 @@ def _serve_stream_accounting(t: int, mask: int, cancel: bool, script: tuple) -> 
         i = (f[1] - shm_mod.HEADER_SIZE) // 1024
         if ("proc_start", i) in _EV and fi < _EV.index(("proc_end", i)):
             return False
+        # ... and not before the output produced from that input has been written: the collector may
+        # hold zero-copy views of the input, and a freed region is what first-fit hands the output
+        if i in _H.get("emitted", ()) and f[2] <= _H["out_len_at_end_%d" % i]:
+            return False
     return True
 
 
 @cond(q=90, t=300, stubs=_S_STUBS, encoded=[srv.RpcServer._serve_stream, shm_mod.resolve_shm_batch, types_mod.AnnotatedBatch.release],
-      replay=lambda a: _replay_serve_stream(dict(a, __kinds__=_KINDS_A)),
+      replay=lambda a: _replay_serve_stream_full(dict(a, __kinds__=_KINDS_A)),
       bound="exchange stream, 0..%d inputs each inline or shm pointer, per input {emit, process raises, emits nothing (validate raises), region undecodable}, close or cancel" % _T_MAX,
       signature=lambda args, conc: "C29:serve-stream:input-region-not-released")
 def serve_stream_releases_inputs(t: int, mask: int, cancel: bool, k0: int, k1: int, k2: int) -> bool:
@@ -836,7 +921,7 @@ def serve_stream_releases_inputs(t: int, mask: int, cancel: bool, k0: int, k1: i
 
 
 @cond(q=60, t=200, stubs=_S_STUBS, encoded=[srv.RpcServer._serve_stream, wire._coerce_input_batch, shm_mod.resolve_shm_batch],
-      replay=_replay_serve_stream,
+      replay=_replay_serve_stream_full,
       bound="exchange stream, 1..%d inputs each inline or shm pointer, all echoed except the last: a shm region holding a batch of another field set | an uncastable column type" % _T_MAX,
       signature=lambda args, conc: "C29:serve-stream:uncoercible-input-region-leaked")
 def serve_stream_releases_uncoercible_input(t: int, mask: int, cancel: bool, k0: int, k1: int, k2: int) -> bool:
